@@ -55,10 +55,19 @@ def attr_diff(prog, env, got, want, path=""):
     return None
 
 
-def used_after(func, name, stmt):
-    """is local `name` read anywhere in func (nested included) other than in stmt itself"""
+def used_after(func, name, stmt, arity=None):
+    """is local `name` (bound to the whole tuple) used as a value anywhere in func?  Indexing it with a constant
+    (`fields[1]`) and destructuring it into as many names as it has fields (`a, b = fields`) are not such uses."""
+    fine = set()
     for n in ast.walk(func.node):
-        if isinstance(n, ast.Name) and n.id == name and isinstance(n.ctx, ast.Load):
+        if isinstance(n, ast.Subscript) and isinstance(n.value, ast.Name) and n.value.id == name and isinstance(n.slice, ast.Constant) and isinstance(
+                n.slice.value, int) and (arity is None or -arity <= n.slice.value < arity):
+            fine.add(id(n.value))
+        if isinstance(n, ast.Assign) and isinstance(n.value, ast.Name) and n.value.id == name and len(n.targets) == 1 and isinstance(
+                n.targets[0], (ast.Tuple, ast.List)) and (arity is None or len(n.targets[0].elts) == arity):
+            fine.add(id(n.value))
+    for n in ast.walk(func.node):
+        if isinstance(n, ast.Name) and n.id == name and isinstance(n.ctx, ast.Load) and id(n) not in fine:
             return True
     return False
 
@@ -110,16 +119,18 @@ def run(ctx):
                 t = st.targets[0]
                 fm = st.value.args[0]
                 vt = t.elts[0] if isinstance(t, ast.Tuple) and len(t.elts) == 2 else None
-                if not isinstance(fm, ast.Constant):
+                fmv = const_value(prog, f, fm)
+                if not isinstance(fmv, str):
                     r.ok("%s#unpack(%s) variable-length" % (f.qname, norm(fm)), where(f, st))
                     continue
+                fm = ast.Constant(value=fmv)
                 codes = W.parse_fmt(fm.value)[1] or []
                 if isinstance(vt, ast.Tuple):
                     r.check(len(vt.elts) == len(codes), "%s#unpack(%s)->%s" % (f.qname, fm.value, norm(vt)),
                             "format has %d fields, target destructures %d" % (len(codes), len(vt.elts)), where(f, st), "ValueError at run time")
                 else:
                     top = f
-                    used = vt is not None and used_after(top, norm(vt), st)
+                    used = vt is not None and used_after(top, norm(vt), st, len(codes))
                     r.check(not used, "%s#unpack(%s)->%s" % (f.qname, fm.value, norm(vt) if vt is not None else norm(t)),
                             "`%s` is bound to the whole %d-tuple returned by relative_unpack and then used as a value" % (
                                 norm(vt) if vt is not None else norm(t), len(codes)), where(f, st),
